@@ -1,7 +1,7 @@
 SPEC = {
     "id": "C16",
     "props_file": "Props/C16.v",
-    "gen": ["decodeconsts"],
+    "gen": ["decodeconsts", "quoteconsts"],
     "streams": [
         # K + S for the modelled hand-written decoders: real Go function vs Verif.Decode.Cases.run_case
         {"name": "decode", "cmd": "decode",
@@ -16,10 +16,12 @@ SPEC = {
         "Coq 8.16.1 kernel (coqc; coqchk in the thorough tier); no native_compute",
         "harness/cmd/gen decodeconsts (DepthSize, ValueLengthSize, hash.Size, node prefixes, the empty hash from the imported packages; maxProofDepth, proofEntryFull/Hash, Min/LatestProofVersion read with go/ast from syncer/proof.go)",
         "coq/Decode/GoSlice.v as the semantics of Go slice expressions, indexing, encoding/binary little-endian reads, make and copy (slice is stricter than Go: high > len is Panic even when <= cap)",
-        "harness/cmd/decode + verif-tagged go/storage/mkvs/syncer/export_verif.go (VerifWalk: the package-private verifyProof); error values mapped to classes by errors.Is and message prefix",
+        "harness/cmd/gen quoteconsts (quote.go layout constants with go/ast; TEE types, certification data types, QE vendor id, TdAttributeReserved from the imported pcs package)",
+        "harness/cmd/decode + verif-tagged go/storage/mkvs/syncer/export_verif.go (VerifWalk: the package-private verifyProof) and go/common/sgx/pcs/export_verif_c16.go (read-only accessors VerifQE, VerifReportBody); error values mapped to classes by errors.Is and message prefix",
         "vm_compute evaluation of Verif.Decode.Cases.run_case on the recorded inputs (no extraction)",
         "Go int is 64 bit (sums of positions and declared lengths < 2^33 do not wrap)",
-        "NOT modelled, search only: fxamacker/cbor (through go/common/cbor), encoding/json, crypto/x509 + PEM, protobuf, snappy, the PCS quote parser and every type decoded through them (transactions, commitments, proposals, node/entity/runtime descriptors, syncer.Proof envelope, write logs, checkpoint chunks, PCS quotes and collateral, IAS AVR)",
+        "PCS quote: the PEM/X.509 parse of a PCK certificate chain inside a quote is an oracle input of the model (observed accept/reject), not modelled",
+        "NOT modelled, search only: fxamacker/cbor (through go/common/cbor), encoding/json, crypto/x509 + PEM, protobuf, snappy and every type decoded through them (transactions, commitments, proposals, node/entity/runtime descriptors, syncer.Proof envelope, write logs, checkpoint chunks, PCS quotes and collateral, IAS AVR)",
         "NOT covered at all: runtime host protocol frames (go/runtime/host/protocol/connection.go), CheckTx/DeliverTx of a live multiplexer",
     ],
     "assumptions": [
@@ -32,6 +34,6 @@ SPEC = {
 
 MANIFEST = {
     "technique": "Coq proof (totality, boundedness and bounded recursion of a statement-by-statement port of the hand-written binary decoders over an explicit-panic model of Go slices) with differential correspondence check against the real decoders; mutation-based search (no model) for the entry points that go through third-party decoders",
-    "level_text": "PROOF covers the hand-written binary decoders only: Depth.UnmarshalBinary, Key.SizedUnmarshalBinary, LeafNode/InternalNode.SizedUnmarshalBinary (full and compact forms), node.UnmarshalBinary and the Merkle proof verifier walk (verifyProof / verifyProofOpts up to the root-hash comparison). For EVERY byte string / entry list the ported decoders return Ok or Err and never fail a bounds check (decode_*_total, verify_walk_total, verify_opts_total), consume at most the input and build values no larger than the input (decode_*_bounded), request through make() at most the input length on every path including error paths (decode_alloc_bounded: declared lengths are checked before allocation), round-trip the encoders on well-formed nodes (decode_encode_roundtrip_*), and the verifier recursion nests at most maxProofDepth+2 frames and builds one pointer per consumed entry (verify_depth_bounded, verify_walk_bounded, verify_opts_consumes_all). The port is tied to the code by running the real Go functions and the model (vm_compute) on the same valid encodings, length-field mutants, truncations and random bytes and comparing Ok/Err class, decoded value and consumed length. EVERYTHING ELSE in the property (CBOR transactions, executor commitments and proposals, node/entity/runtime descriptors, the syncer.Proof envelope, write logs, checkpoint chunk restore, PCS quotes, quote bundles and TCB/QE-identity JSON, IAS AVR) is SEARCH, NOT PROOF: the same mutation engine applied to valid seeds of each exported entry point under recover with a 2 s / 256 MiB budget per call; third-party CBOR/JSON/X.509/protobuf/snappy decoders are not modelled. Runtime host protocol frames and CheckTx/DeliverTx of a live multiplexer are not exercised.",
+    "level_text": "PROOF covers the hand-written binary decoders only: Depth.UnmarshalBinary, Key.SizedUnmarshalBinary, LeafNode/InternalNode.SizedUnmarshalBinary (full and compact forms), node.UnmarshalBinary, the Merkle proof verifier walk (verifyProof / verifyProofOpts up to the root-hash comparison) and the PCS quote binary layout (Quote.UnmarshalBinaryWithTrailing, header v3/v4, SGX/TDX report bodies, TdAttributes, QuoteSignatureECDSA_P256 incl. the v4 certification-data tuple, CertificationData_QEReport, PPID data; the nested PEM/X.509 certificate chain parse is an oracle input). For EVERY byte string / entry list the ported decoders return Ok or Err and never fail a bounds check (decode_*_total, decode_quote_total, verify_walk_total, verify_opts_total), consume at most the input and build values no larger than the input (decode_*_bounded), request through make() at most the input length on every path including error paths (decode_alloc_bounded: declared lengths are checked before allocation), round-trip the encoders on well-formed nodes (decode_encode_roundtrip_*), and the verifier recursion nests at most maxProofDepth+2 frames and builds one pointer per consumed entry (verify_depth_bounded, verify_walk_bounded, verify_opts_consumes_all). The port is tied to the code by running the real Go functions and the model (vm_compute) on the same valid encodings, length-field mutants, truncations and random bytes and comparing Ok/Err class, decoded value and consumed length. EVERYTHING ELSE in the property (CBOR transactions, executor commitments and proposals, node/entity/runtime descriptors, the syncer.Proof envelope, write logs, checkpoint chunk restore, PCS quote bundles and their X.509 chains, TCB/QE-identity JSON, IAS AVR and AVR bundles) is SEARCH, NOT PROOF: the same mutation engine applied to valid seeds of each exported entry point under recover with a 2 s / 256 MiB budget per call; third-party CBOR/JSON/X.509/protobuf/snappy decoders are not modelled. Runtime host protocol frames and CheckTx/DeliverTx of a live multiplexer are not exercised.",
     "level_note": "Trusted: Coq kernel; GoSlice.v as the semantics of Go slicing/indexing/encoding-binary/make/copy; the constant generator; the harness, its error-class mapping and the verif-tagged VerifWalk hook. The search stream gives no guarantee beyond the inputs it ran.",
 }
